@@ -1,10 +1,15 @@
 package main
 
 import (
+	"bytes"
+	"context"
+	"encoding/json"
 	"fmt"
 	"hash/fnv"
 	"math"
 	"math/rand"
+	"sort"
+	"strings"
 	"sync"
 	"sync/atomic"
 	"time"
@@ -30,10 +35,50 @@ type c39Field struct {
 	S    []byte `json:"s,omitempty"`
 }
 
+// c39KV is one further field of a record (cancelled, method, http_status ...):
+// exactly one of B / S / N is set.
+type c39KV struct {
+	K string  `json:"k"`
+	B *bool   `json:"b,omitempty"`
+	S *string `json:"s,omitempty"`
+	N *int64  `json:"n,omitempty"`
+}
+
+func (kv c39KV) value() any {
+	switch {
+	case kv.B != nil:
+		return *kv.B
+	case kv.S != nil:
+		return *kv.S
+	case kv.N != nil:
+		return *kv.N
+	}
+	return nil
+}
+
+func c39KVb(k string, b bool) c39KV   { return c39KV{K: k, B: &b} }
+func c39KVs(k string, v string) c39KV { return c39KV{K: k, S: &v} }
+func c39KVn(k string, n int64) c39KV  { return c39KV{K: k, N: &n} }
+func c39Extra(kv ...c39KV) []c39KV    { return kv }
+
 type c39Rec struct {
 	Status  c39Field `json:"status"`
 	Stream  c39Field `json:"stream"`
 	Request c39Field `json:"request"`
+	Extra   []c39KV  `json:"extra,omitempty"` // other fields real records carry; never status/stream_id/request_id/sample_rate
+}
+
+// c39Disp is one dispatch handed to AccessLogHook.OnDispatchEnd.
+type c39Disp struct {
+	Stream     bool   `json:"stream,omitempty"` // MethodType stream (StreamID is then non-empty) or unary
+	StreamID   string `json:"stream_id,omitempty"`
+	RequestID  string `json:"request_id,omitempty"`
+	Err        int    `json:"err,omitempty"` // 0 none, 1 plain error, 2 *RpcError
+	Cancelled  bool   `json:"cancelled,omitempty"`
+	HTTPStatus int    `json:"http_status,omitempty"`
+	Authed     bool   `json:"authed,omitempty"`
+	ReqData    bool   `json:"req_data,omitempty"`
+	Stats      bool   `json:"stats,omitempty"`
 }
 
 type c39Step struct {
@@ -43,6 +88,8 @@ type c39Step struct {
 
 type c39In struct {
 	Kind     string    `json:"kind"`
+	Disps    []c39Disp `json:"disps,omitempty"` // hook: dispatches, in order
+	Setup    int       `json:"setup,omitempty"` // hook: which setters run, in which order (see c39RunHook)
 	RateBits uint64    `json:"rate_bits,omitempty"`
 	Recs     []c39Rec  `json:"recs,omitempty"`
 	Str      []byte    `json:"str,omitempty"`
@@ -95,7 +142,78 @@ func c39GenRec(r *rand.Rand) c39Rec {
 	if r.Intn(3) == 0 {
 		rec.Stream = c39Field{}
 	}
+	rec.Extra = c39GenExtra(r)
 	return rec
+}
+
+// c39GenExtra: the optional fields OnDispatchEnd puts on records, with the
+// values it uses and with neighbouring ones (true/false/strings/numbers on
+// every flag-like key), so that a sampler keyed on any of them shows.
+func c39GenExtra(r *rand.Rand) []c39KV {
+	var out []c39KV
+	if r.Intn(3) == 0 {
+		switch r.Intn(6) {
+		case 0:
+			out = append(out, c39KVb("cancelled", false))
+		case 1:
+			out = append(out, c39KVs("cancelled", "true"))
+		default:
+			out = append(out, c39KVb("cancelled", true))
+		}
+	}
+	pool := []func() c39KV{
+		func() c39KV { return c39KVb("authenticated", r.Intn(2) == 0) },
+		func() c39KV { return c39KVn("http_status", []int64{200, 204, 400, 401, 499, 500}[r.Intn(6)]) },
+		func() c39KV { return c39KVs("method_type", []string{"unary", "stream"}[r.Intn(2)]) },
+		func() c39KV { return c39KVs("method", []string{"add", "generate", "__describe__"}[r.Intn(3)]) },
+		func() c39KV { return c39KVs("error_type", []string{"", "ValueError", "Error"}[r.Intn(3)]) },
+		func() c39KV { return c39KVs("error_message", "boom") },
+		func() c39KV { return c39KVs("truncated", "payload_omitted") },
+		func() c39KV { return c39KVb("truncated", true) },
+		func() c39KV { return c39KVs("level", []string{"INFO", "ERROR", "DEBUG"}[r.Intn(3)]) },
+		func() c39KV { return c39KVs("principal", "alice") },
+		func() c39KV { return c39KVn("dropped_records", int64(1+r.Intn(3))) },
+		func() c39KV { return c39KVs("trace_id", "4bf92f3577b34da6a3ce929d0e0e4736") },
+		func() c39KV { return c39KVn("externalized_bytes", int64(r.Intn(1<<20))) },
+		func() c39KV { return c39KVn("output_rows", int64(r.Intn(100))) },
+		func() c39KV { return c39KVs("message", "svc.m error") },
+		func() c39KV { return c39KVb("error", true) },
+	}
+	seen := map[string]bool{"cancelled": true}
+	for k := r.Intn(4); k > 0; k-- {
+		kv := pool[r.Intn(len(pool))]()
+		if !seen[kv.K] {
+			seen[kv.K] = true
+			out = append(out, kv)
+		}
+	}
+	return out
+}
+
+func c39GenHook(r *rand.Rand) c39In {
+	in := c39In{Kind: "hook", Setup: r.Intn(6)}
+	ids := []string{"a", "b", "r", "s1", "s2", "00000000000000000000000000000001", "7f3a9c2e5b8d41f6a0c1d2e3f4a5b6c7", "c0ffee00c0ffee00c0ffee00c0ffee00"}
+	n := 1 + r.Intn(10)
+	for i := 0; i < n; i++ {
+		d := c39Disp{HTTPStatus: []int{0, 200, 499, 500}[r.Intn(4)], Authed: r.Intn(3) == 0, ReqData: r.Intn(3) == 0, Stats: r.Intn(3) == 0}
+		if r.Intn(3) > 0 {
+			d.Stream, d.StreamID = true, ids[r.Intn(len(ids))]
+		}
+		if r.Intn(3) > 0 {
+			d.RequestID = []string{"a", "b", "r", "r1", "r2", "req-000001"}[r.Intn(6)]
+		}
+		if r.Intn(5) == 0 {
+			d.Err = 1 + r.Intn(2)
+		}
+		d.Cancelled = r.Intn(3) == 0
+		in.Disps = append(in.Disps, d)
+	}
+	// rate: half the time a threshold below the hash of one of the keys, so that the call is sampled out
+	in.RateBits = math.Float64bits([]float64{0, 0.5, 0.25, 0.1, 0.75, math.Nextafter(1, 0), 1}[r.Intn(7)])
+	if r.Intn(4) == 0 {
+		in.RateBits = math.Float64bits(r.Float64())
+	}
+	return in
 }
 
 func c39Fnv(s []byte) uint32 {
@@ -232,6 +350,48 @@ func c39Gen(r *rand.Rand, n int, tier string) []c39In {
 		{Status: c39F("ok"), Request: c39F("1")}, // collides with the first fallback key
 		{Status: c39F("ok")},
 	}
+	// records with the further fields real records carry. Stream "a" and request "r" hash above
+	// the 0.5 threshold (sampled-out calls), "s1" and "r2" below it. The last record of a
+	// client-cancelled stream is status ok + cancelled true: it shares its stream's fate and,
+	// when kept, carries the rate, like any other non-error record.
+	cancelRecs := []c39Rec{
+		{Status: c39F("ok"), Stream: c39F("a"), Request: c39F("init"), Extra: c39Extra(c39KVs("method_type", "stream"), c39KVn("http_status", 200))},
+		{Status: c39F("ok"), Stream: c39F("a"), Request: c39F("cont-1"), Extra: c39Extra(c39KVs("method_type", "stream"))},
+		{Status: c39F("ok"), Stream: c39F("a"), Request: c39F("cont-2"), Extra: c39Extra(c39KVb("cancelled", true), c39KVs("method_type", "stream"))},
+		{Status: c39F("ok"), Stream: c39F("s1"), Request: c39F("init"), Extra: c39Extra(c39KVs("method_type", "stream"))},
+		{Status: c39F("ok"), Stream: c39F("s1"), Request: c39F("cont-1"), Extra: c39Extra(c39KVb("cancelled", true))},
+		{Status: c39F("ok"), Request: c39F("r"), Extra: c39Extra(c39KVb("cancelled", true))},
+		{Status: c39F("ok"), Request: c39F("r"), Extra: c39Extra(c39KVb("cancelled", false))},
+		{Status: c39F("ok"), Request: c39F("r"), Extra: c39Extra(c39KVs("cancelled", "true"))},
+		{Status: c39F("ok"), Request: c39F("r"), Extra: c39Extra(c39KVb("authenticated", true), c39KVb("truncated", true), c39KVb("error", true), c39KVs("level", "ERROR"), c39KVs("error_type", "ValueError"), c39KVn("http_status", 500))},
+		{Status: c39F("error"), Stream: c39F("a"), Extra: c39Extra(c39KVb("cancelled", true), c39KVs("error_type", "ValueError"), c39KVs("error_message", "boom"))},
+		{Status: c39F("ok"), Extra: c39Extra(c39KVb("cancelled", true))},
+		{Status: c39F("ok"), Request: c39F("r2"), Extra: c39Extra(c39KVb("cancelled", true), c39KVn("dropped_records", 2))},
+	}
+	for _, f := range []float64{0.5, 0, 0.25, math.Nextafter(1, 0), 1} {
+		out = append(out, c39In{Kind: "sample", RateBits: math.Float64bits(f), Recs: cancelRecs})
+	}
+	out = append(out, c39In{Kind: "sample", RateBits: math.Float64bits(0.5), Recs: cancelRecs[:3]})
+	// the same through NewAccessLogHook + SetSampleRate (+ SetDebug / SetAsync / a second
+	// SetSampleRate, in the orders of c39RunHook) + OnDispatchEnd with DispatchInfo.Cancelled
+	cancelDisps := []c39Disp{
+		{Stream: true, StreamID: "a", RequestID: "init", HTTPStatus: 200, ReqData: true},
+		{Stream: true, StreamID: "a", RequestID: "cont-1", HTTPStatus: 200, Stats: true},
+		{Stream: true, StreamID: "a", RequestID: "cont-2", HTTPStatus: 200, Cancelled: true},
+		{Stream: true, StreamID: "s1", RequestID: "init", Authed: true},
+		{Stream: true, StreamID: "s1", RequestID: "cont-1", Cancelled: true},
+		{RequestID: "r", Cancelled: true},
+		{RequestID: "r"},
+		{Cancelled: true},
+		{Stream: true, StreamID: "a", Err: 2, Cancelled: true},
+		{RequestID: "r", Err: 1, HTTPStatus: 500},
+	}
+	for setup := 0; setup < 6; setup++ {
+		out = append(out, c39In{Kind: "hook", Setup: setup, RateBits: math.Float64bits(0.5), Disps: cancelDisps})
+	}
+	for _, f := range []float64{0, 1, math.Nextafter(1, 0), 2, math.NaN()} {
+		out = append(out, c39In{Kind: "hook", RateBits: math.Float64bits(f), Disps: cancelDisps[:5]})
+	}
 	for _, f := range []float64{0, math.Copysign(0, -1), 1, 0.5, 0.25, 0.1, math.Nextafter(1, 0), math.Nextafter(1, 2),
 		math.SmallestNonzeroFloat64, 1e-300, -1e-300, -1, 100, math.Inf(1), math.Inf(-1), math.NaN(), 1 - 1e-9,
 		float64(c39Fnv([]byte("s1"))) / float64(math.MaxUint32), float64(c39Fnv([]byte("r2"))) / float64(math.MaxUint32),
@@ -288,6 +448,8 @@ func c39Gen(r *rand.Rand, n int, tier string) []c39In {
 			b := make([]byte, r.Intn(200))
 			r.Read(b)
 			out = append(out, c39In{Kind: "fnv", Str: b})
+		case x == 1:
+			out = append(out, c39GenHook(r))
 		case x < 8:
 			k := 1 + r.Intn(24)
 			recs := make([]c39Rec, k)
@@ -315,82 +477,292 @@ func c39PutField(m map[string]any, name string, f c39Field) {
 	}
 }
 
-func c39RunSample(in c39In) CaseOut {
-	rate := math.Float64frombits(in.RateBits)
-	coqIn := App("C39.Sample", N(in.RateBits), ListOf(in.Recs, func(r c39Rec) string {
-		return App("C39.Build_srec", c39OptBytes(r.Status), c39OptBytes(r.Stream), c39OptBytes(r.Request))
-	}))
-	s, err := vgirpc.VerifNewSampler(rate)
-	if err != nil {
-		return CaseOut{Coq: Pair(coqIn, "C39.OSampleErr"), Tags: []string{"sample", "rate-rejected"}, Nontrivial: true,
-			Obs: map[string]any{"rate": fmt.Sprint(rate), "error": true}}
+// c39SRec is one record as the sampler sees it: the three fields the decision
+// reads, and every other field as (key, JSON text of the value).
+type c39SRec struct {
+	Status, Stream, Request c39Field
+	Extra                   [][2]string
+}
+
+type c39SOut struct {
+	Kept bool    `json:"kept"`
+	Rate *uint64 `json:"rate_bits,omitempty"`
+}
+
+func (r c39SRec) coq() string {
+	return App("C39.Build_srec", c39OptBytes(r.Status), c39OptBytes(r.Stream), c39OptBytes(r.Request),
+		ListOf(r.Extra, func(kv [2]string) string { return Pair(B(kv[0]), B(kv[1])) }))
+}
+
+func (r c39SRec) extra(k string) string {
+	for _, kv := range r.Extra {
+		if kv[0] == k {
+			return kv[1]
+		}
 	}
-	type out struct {
-		Kept bool    `json:"kept"`
-		Rate *uint64 `json:"rate_bits,omitempty"`
-	}
-	tags := map[string]bool{"sample": true}
+	return ""
+}
+
+// c39SampleOut renders a sampler case (direct or through the hook) and tags it.
+func c39SampleOut(route string, rateBits uint64, thr uint32, recs []c39SRec, outs []c39SOut, tags map[string]bool, extraObs map[string]any) CaseOut {
+	rate := math.Float64frombits(rateBits)
+	coqIn := App("C39.Sample", N(rateBits), ListOf(recs, c39SRec.coq))
+	tags["sample"] = true
+	tags[route] = true
 	if rate >= 1 {
 		tags["rate>=1"] = true
 	} else {
 		tags["sampling-active"] = true
 	}
-	outs := make([]out, len(in.Recs))
-	coqOuts := make([]string, len(in.Recs))
 	keys := map[string]int{}
-	for i, r := range in.Recs {
-		m := map[string]any{"n": i}
-		c39PutField(m, "status", r.Status)
-		c39PutField(m, "stream_id", r.Stream)
-		c39PutField(m, "request_id", r.Request)
-		kept := s.Keep(m)
-		o := out{Kept: kept}
-		rateTerm := "None"
-		if v, ok := m["sample_rate"]; ok {
-			f, isF := v.(float64)
-			if !isF {
-				f = math.NaN()
-			}
-			b := math.Float64bits(f)
-			o.Rate = &b
-			rateTerm = "(Some " + N(b) + ")"
-		}
-		outs[i] = o
-		coqOuts[i] = App("C39.Build_sout", Bool(kept), rateTerm)
+	for i, r := range recs {
 		isErr := r.Status.Kind == 1 && string(r.Status.S) == "error"
 		switch {
 		case isErr:
 			tags["error-record"] = true
-		case kept:
+		case outs[i].Kept:
 			tags["kept"] = true
 		default:
 			tags["dropped"] = true
 		}
-		if !isErr {
-			k := r.Stream
-			if !(k.Kind == 1 && len(k.S) > 0) {
-				k = r.Request
+		if len(r.Extra) > 0 {
+			tags["extra-fields"] = true
+		}
+		if isErr {
+			continue
+		}
+		k := r.Stream
+		if !(k.Kind == 1 && len(k.S) > 0) {
+			k = r.Request
+		}
+		if k.Kind == 1 && len(k.S) > 0 {
+			keys[string(k.S)]++
+			if keys[string(k.S)] == 2 {
+				tags["shared-key"] = true
 			}
-			if k.Kind == 1 && len(k.S) > 0 {
-				keys[string(k.S)]++
-				if keys[string(k.S)] == 2 {
-					tags["shared-key"] = true
-				}
-				if h := c39Fnv(k.S); h == s.Threshold() || h == s.Threshold()+1 {
-					tags["hash-at-threshold"] = true
-				}
-			} else {
-				tags["fallback-key"] = true
+			h := c39Fnv(k.S)
+			if h == thr || h == thr+1 {
+				tags["hash-at-threshold"] = true
 			}
+			if r.extra("cancelled") == "true" && rate < 1 {
+				if h > thr {
+					tags["cancelled-ok-record-of-sampled-out-call"] = true
+				} else {
+					tags["cancelled-ok-record-of-sampled-in-call"] = true
+				}
+			}
+		} else {
+			tags["fallback-key"] = true
 		}
 	}
+	coqOuts := ListOf(outs, func(o c39SOut) string {
+		if o.Rate == nil {
+			return App("C39.Build_sout", Bool(o.Kept), "None")
+		}
+		return App("C39.Build_sout", Bool(o.Kept), "(Some "+N(*o.Rate)+")")
+	})
 	var tl []string
 	for t := range tags {
 		tl = append(tl, t)
 	}
-	return CaseOut{Coq: Pair(coqIn, App("C39.OSample", N(uint64(s.Threshold())), List(coqOuts))), Tags: tl,
-		Nontrivial: len(in.Recs) > 0,
-		Obs:        map[string]any{"rate": fmt.Sprint(rate), "threshold": s.Threshold(), "outs": outs}}
+	obs := map[string]any{"rate": fmt.Sprint(rate), "threshold": thr, "outs": outs}
+	for k, v := range extraObs {
+		obs[k] = v
+	}
+	return CaseOut{Coq: Pair(coqIn, App("C39.OSample", N(uint64(thr)), coqOuts)), Tags: tl, Nontrivial: len(recs) > 0, Obs: obs}
+}
+
+func c39RateOf(v any) *uint64 {
+	f, isF := v.(float64)
+	if !isF {
+		f = math.NaN()
+	}
+	b := math.Float64bits(f)
+	return &b
+}
+
+func c39RunSample(in c39In) CaseOut {
+	rate := math.Float64frombits(in.RateBits)
+	recs := make([]c39SRec, len(in.Recs))
+	for i, r := range in.Recs {
+		recs[i] = c39SRec{Status: r.Status, Stream: r.Stream, Request: r.Request}
+		for _, kv := range r.Extra {
+			j, _ := json.Marshal(kv.value())
+			recs[i].Extra = append(recs[i].Extra, [2]string{kv.K, string(j)})
+		}
+	}
+	s, err := vgirpc.VerifNewSampler(rate)
+	if err != nil {
+		return CaseOut{Coq: Pair(App("C39.Sample", N(in.RateBits), ListOf(recs, c39SRec.coq)), "C39.OSampleErr"),
+			Tags: []string{"sample", "direct", "rate-rejected"}, Nontrivial: true,
+			Obs: map[string]any{"rate": fmt.Sprint(rate), "error": true}}
+	}
+	outs := make([]c39SOut, len(in.Recs))
+	for i, r := range in.Recs {
+		m := map[string]any{}
+		for _, kv := range r.Extra {
+			m[kv.K] = kv.value()
+		}
+		c39PutField(m, "status", r.Status)
+		c39PutField(m, "stream_id", r.Stream)
+		c39PutField(m, "request_id", r.Request)
+		outs[i] = c39SOut{Kept: s.Keep(m)}
+		if v, ok := m["sample_rate"]; ok {
+			outs[i].Rate = c39RateOf(v)
+		}
+	}
+	return c39SampleOut("direct", in.RateBits, s.Threshold(), recs, outs, map[string]bool{}, nil)
+}
+
+// c39RunHook drives the sampler through the public route: NewAccessLogHook,
+// the setters in one of six orders, OnDispatchStart/OnDispatchEnd per dispatch.
+// An unsampled twin hook fed the same dispatches shows what each record looks
+// like (status / stream_id / request_id / every other field); the sampled hook's
+// output, matched by the per-dispatch method name, shows which records were
+// kept and what sample_rate they carry.
+func c39RunHook(in c39In) CaseOut {
+	rate := math.Float64frombits(in.RateBits)
+	run := func(h *vgirpc.AccessLogHook) {
+		for i, d := range in.Disps {
+			info := vgirpc.DispatchInfo{Method: fmt.Sprintf("m%d", i), MethodType: vgirpc.DispatchMethodUnary, ServerID: "srv-1",
+				Protocol: "svc", ProtocolHash: "e3b0c44298fc1c149afbf4c8996fb92427ae41e4649b934ca495991b7852b855",
+				RequestID: d.RequestID, Auth: vgirpc.Anonymous(), HTTPStatus: d.HTTPStatus, Cancelled: d.Cancelled}
+			if d.Stream {
+				info.MethodType, info.StreamID = vgirpc.DispatchMethodStream, d.StreamID
+			}
+			if d.Authed {
+				info.Auth = &vgirpc.AuthContext{Domain: "bearer", Authenticated: true, Principal: "alice", Claims: map[string]any{"sub": "alice", "email": "a@example.com"}}
+				info.RemoteAddr = "10.0.0.1:4711"
+			}
+			if d.ReqData {
+				info.RequestData = []byte{1, 2, 3, 4}
+			}
+			var stats *vgirpc.CallStatistics
+			if d.Stats {
+				stats = &vgirpc.CallStatistics{InputBatches: 1, OutputBatches: 2, InputRows: 3, OutputRows: 4, InputBytes: 5, OutputBytes: 6}
+			}
+			var err error
+			switch d.Err {
+			case 1:
+				err = fmt.Errorf("boom")
+			case 2:
+				err = &vgirpc.RpcError{Type: "ValueError", Message: "bad value"}
+			}
+			ctx, tok := h.OnDispatchStart(context.Background(), info)
+			h.OnDispatchEnd(ctx, tok, info, stats, err)
+		}
+	}
+	lines := func(buf *bytes.Buffer) []map[string]any {
+		var out []map[string]any
+		for _, l := range strings.Split(buf.String(), "\n") {
+			if l == "" {
+				continue
+			}
+			var m map[string]any
+			if json.Unmarshal([]byte(l), &m) != nil {
+				m = map[string]any{"method": "unparsable"}
+			}
+			out = append(out, m)
+		}
+		return out
+	}
+	strField := func(m map[string]any, k string) c39Field {
+		v, ok := m[k]
+		if !ok {
+			return c39Field{}
+		}
+		if sv, isS := v.(string); isS {
+			return c39Field{Kind: 1, S: []byte(sv)}
+		}
+		return c39Field{Kind: 2}
+	}
+	// what each record looks like
+	var b0 bytes.Buffer
+	h0 := vgirpc.NewAccessLogHook(&b0, "1.2.3")
+	run(h0)
+	plain := lines(&b0)
+	recs := make([]c39SRec, len(in.Disps))
+	for i := range recs {
+		if i >= len(plain) {
+			recs[i] = c39SRec{Extra: [][2]string{{"harness", "\"unsampled hook wrote fewer records than dispatches\""}}}
+			continue
+		}
+		m := plain[i]
+		recs[i] = c39SRec{Status: strField(m, "status"), Stream: strField(m, "stream_id"), Request: strField(m, "request_id")}
+		var ks []string
+		for k := range m {
+			switch k {
+			case "status", "stream_id", "request_id", "sample_rate", "timestamp", "duration_ms",
+				"protocol_hash", "logger", "server_id", "server_version", "protocol": // decision fields, run-dependent or constant ones
+			default:
+				ks = append(ks, k)
+			}
+		}
+		sort.Strings(ks)
+		for _, k := range ks {
+			j, _ := json.Marshal(m[k])
+			recs[i].Extra = append(recs[i].Extra, [2]string{k, string(j)})
+		}
+	}
+	tags := map[string]bool{fmt.Sprintf("hook-setup-%d", in.Setup): true}
+	// the sampled hook
+	var b1 bytes.Buffer
+	h1 := vgirpc.NewAccessLogHook(&b1, "1.2.3")
+	var err error
+	switch in.Setup {
+	case 1: // replace a running sampler
+		_ = h1.SetSampleRate(0.0)
+		err = h1.SetSampleRate(rate)
+	case 2:
+		err = h1.SetSampleRate(rate)
+		h1.SetDebug(true)
+	case 3: // async writer first, then sampling
+		_ = h1.SetAsync(1024)
+		err = h1.SetSampleRate(rate)
+	case 4: // sampling first, then the async writer with the default queue
+		err = h1.SetSampleRate(rate)
+		_ = h1.SetAsync(0)
+	case 5: // from sampling off to on
+		_ = h1.SetSampleRate(1.0)
+		err = h1.SetSampleRate(rate)
+	default:
+		err = h1.SetSampleRate(rate)
+	}
+	if err != nil {
+		_ = h1.Close()
+		return CaseOut{Coq: Pair(App("C39.Sample", N(in.RateBits), ListOf(recs, c39SRec.coq)), "C39.OSampleErr"),
+			Tags: []string{"sample", "hook", "rate-rejected"}, Nontrivial: true,
+			Obs: map[string]any{"rate": fmt.Sprint(rate), "error": true}}
+	}
+	run(h1)
+	_ = h1.Close() // drains the async writer, if any
+	outs := make([]c39SOut, len(in.Disps))
+	strays := 0
+	for _, m := range lines(&b1) {
+		name, _ := m["method"].(string)
+		var i int
+		if n, _ := fmt.Sscanf(name, "m%d", &i); n != 1 || i < 0 || i >= len(outs) || outs[i].Kept {
+			strays++ // unknown or duplicated record
+			continue
+		}
+		outs[i].Kept = true
+		if v, ok := m["sample_rate"]; ok {
+			outs[i].Rate = c39RateOf(v)
+		}
+	}
+	if strays > 0 {
+		// a record that is not one of the dispatches: make the case disagree with every model output
+		outs = append(outs, c39SOut{Kept: true})
+		tags["stray-record"] = true
+	}
+	thr := uint32(0)
+	if s, e := vgirpc.VerifNewSampler(rate); e == nil {
+		thr = s.Threshold()
+	}
+	for len(recs) < len(outs) {
+		recs = append(recs, c39SRec{})
+	}
+	return c39SampleOut("hook", in.RateBits, thr, recs[:len(in.Disps)], outs, tags, map[string]any{"setup": in.Setup})
 }
 
 type c39Q struct {
@@ -834,6 +1206,8 @@ func c39Run(in c39In) CaseOut {
 			Nontrivial: true, Obs: map[string]any{"fnv1a32": h}}
 	case "sample":
 		return c39RunSample(in)
+	case "hook":
+		return c39RunHook(in)
 	}
 	if in.Kind == "storm" {
 		return c39RunStorm(in)
@@ -1003,6 +1377,6 @@ func c39RunStorm(in c39In) CaseOut {
 }
 
 func init() {
-	Register("C39", "boundary cases first (FNV vectors; close-in-progress schedules: held writer with 0/1/cap queued records, close from another goroutine, then enqueue, also two concurrent closes; 24 rates incl. -0, 1, NaN, Inf, subnormal, thresholds at a key's hash; queue sizes <= 0; the unit-test schedule, trailing drops, enqueue after close, double close), then 35% sampler runs (1-24 records over a small id pool so keys are shared; rates random / at a key's hash / k/2^32 neighbours / arbitrary bit patterns), 60% async schedules (queue size 1-8, 3-40 atomic steps in burst / catch-up / mixed phases, optional close, rare pre-existing dropped_records), 5% FNV strings; non-trivial = a sampler run with at least one record, an async schedule with at least one enqueue before close, every FNV case; distinct = distinct input JSON",
+	Register("C39", "boundary cases first (records with the further fields real records carry: a status-ok cancelled=true record on a sampled-out and on a sampled-in stream, cancelled false / as a string, flag-like fields set, at rates 0.5/0/0.25/1-ulp/1, directly and through NewAccessLogHook + SetSampleRate/SetDebug/SetAsync in six orders + OnDispatchEnd with DispatchInfo.Cancelled; FNV vectors; close-in-progress schedules: held writer with 0/1/cap queued records, close from another goroutine, then enqueue, also two concurrent closes; 24 rates incl. -0, 1, NaN, Inf, subnormal, thresholds at a key's hash; queue sizes <= 0; the unit-test schedule, trailing drops, enqueue after close, double close), then 5% hook runs (1-10 dispatches, six setter orders), 35% sampler runs (1-24 records, a third with a cancelled field and 0-3 other optional fields, over a small id pool so keys are shared; rates random / at a key's hash / k/2^32 neighbours / arbitrary bit patterns), 60% async schedules (queue size 1-8, 3-40 atomic steps in burst / catch-up / mixed phases, optional close, rare pre-existing dropped_records), 5% FNV strings; non-trivial = a sampler run with at least one record, an async schedule with at least one enqueue before close, every FNV case; distinct = distinct input JSON",
 		c39Gen, c39Run)
 }
